@@ -40,15 +40,31 @@ NEXTLINE_FILE = re.compile(r'/nextline/|/apluggy/|/pluggy/|/exceptiongroup/')
 
 
 class InterruptPolicy:
-    """answers `first` prompts with `cmd`, then simulates Ctrl-C (SIGINT) while the next prompt is open"""
+    """answers the first `after` prompts with `cmd`, then simulates Ctrl-C (SIGINT to the main thread) while the
+    next prompt is open.
+
+    Synchronisation: CPython notices a signal that arrives while a thread is blocked in lock.acquire() (queue.get())
+    through EINTR; a signal that arrives in the few instructions BEFORE the thread blocks only sets a flag and the
+    thread then sleeps for ever (measured: 3 % of the runs under load when the signal was sent immediately on
+    OnStartPrompt).  Therefore: the signal is sent from a helper thread after a grace period, and sent again as long
+    as no further event of the run has been seen (a second signal interrupts the blocked acquire, and the pending
+    handler then raises KeyboardInterrupt)."""
+
+    GRACE = 0.05
+    RESEND_EVERY = 1.0
+    MAX_SIGNALS = 8
 
     def __init__(self, args):
         self.n = args.get('after', 1)
         self.cmd = args.get('cmd', 'next')
         self.k = 0
         self.done = False
+        self.nevents = 0
+        self.sent = 0
+        self.open_prompt = None
 
     def on_event(self, ev, put):
+        self.nevents += 1
         if ev['type'] != 'OnStartPrompt':
             return
         if self.k < self.n or self.done:
@@ -56,9 +72,24 @@ class InterruptPolicy:
             put(ev['trace_no'], ev['prompt_no'], self.cmd)
         else:
             self.done = True
-            import signal
+            self.open_prompt = [ev['event'], ev['line_no']]
             import threading
+            threading.Thread(target=self._interrupt, args=(self.nevents,), daemon=True).start()
+
+    def _interrupt(self, seen):
+        import signal
+        import threading
+        import time
+        time.sleep(self.GRACE)
+        for _ in range(self.MAX_SIGNALS):
+            if self.nevents != seen:
+                return              # the run has moved on: the interrupt was taken
             signal.pthread_kill(threading.main_thread().ident, signal.SIGINT)
+            self.sent += 1
+            time.sleep(self.RESEND_EVERY)
+
+    def summary(self):
+        return {'signals_sent': self.sent, 'open_prompt': self.open_prompt}
 
 
 def make_policy(args):
